@@ -487,6 +487,16 @@ def run(tier, rep):
                 rep.violation(f"model:{cfg}:{sm.violated}", {"trace": sm.trace[-3:]})
             else:
                 raise ToolError(f"model self-test: {cfg} should violate {want}, got {sm.violated or sm.error}")
+    if tier != "quick":
+        # the measure argument for every size of the constraint store: SolverProof.tla (TLAPS; 46 obligations).  A proof that does
+        # not go through (solver timeouts on a loaded machine) is reported in the evidence, it is not a statement about goml
+        import subprocess as _sp
+        try:
+            pr = _sp.run(["tlapm", "--threads", "8", "--stretch", "10", "--cache-dir", os.path.join(WORK, "tlacache"), "SolverProof.tla"], cwd=SPEC, capture_output=True, text=True, timeout=1500)
+            m_ = re.search(r"All (\d+) obligations proved", pr.stdout + pr.stderr)
+            rep.coverage["tlaps_solver_progress"] = f"all {m_.group(1)} obligations proved" if m_ else "not proved in this run: " + (pr.stdout + pr.stderr)[-300:]
+        except Exception as e_:
+            rep.coverage["tlaps_solver_progress"] = f"not run: {e_}"
     scases = [{"id": q["id"], "text": q["text"], "dir": memdir, "ident": q["id"]} for q, r in zip(ireqs, ires) if r["verdict"] not in ("timeout", "abort")]
     scases += [{"id": "corpus:" + c["name"], "path": c["src"], "ident": "corpus:" + c["name"]} for c in corpus.single_file_cases() + corpus.package_cases()]
     scases += [{"id": c["id"], "path": c["path"], "ident": c["ident"]} for c in tv_.prepare_cases(fam_found.programs(tier), workdir("c04-solver-found"))]
